@@ -538,6 +538,22 @@ def _dispatch_classes(em, f, depth=2, seen=None):
             for c in cs:
                 if not c.is_generator and c.module.name == 'engine' and c.name not in ('get_value', 'query'):
                     out |= _dispatch_classes(em, c, depth - 1, seen)
+    # dispatch by method: X.m() where the term classes answer m differently - a class has a case when the implementation
+    # it inherits returns something other than None
+    for n in own_nodes(f.node):
+        if isinstance(n, ast.Call) and isinstance(n.func, ast.Attribute) and not n.args and not is_name(n.func.value, 'self'):
+            impls = {}
+            for c in em.repo.instantiated():
+                if c.module.name != 'engine':
+                    continue
+                m = em.repo.lookup_method(c, n.func.attr)
+                if m is not None and m.module.name == 'engine' and not m.is_generator and m.name not in ('get_value', 'to_python', 'name'):
+                    impls[c] = m
+            if len(set(impls.values())) >= 2:
+                for c, m in impls.items():
+                    rets = [r for r in own_nodes(m.node) if isinstance(r, ast.Return)]
+                    if any(r.value is not None and not (isinstance(r.value, ast.Constant) and r.value.value is None) for r in rets):
+                        out.add(c.name)
     return out
 
 
